@@ -15,13 +15,13 @@ import (
 func vpH_C10_T_safety() {
 	prio := vpInt("prio")
 	takeover := vpBool("takeover")
-	vpAssume(vpAnd(prio >= 0, prio <= 1000))
+	vpAssume(vpAnd(prio >= 0, prio <= 1<<62))
 	vpAssume(vpImplies(takeover, prio > 0)) // validity of the configuration (C16)
 	st := vpNewStore("g", 0)
 	switch vpChoose("incumbent", 2) {
 	case 0:
 		p0 := vpInt("prio0")
-		vpAssume(vpAnd(p0 >= 0, p0 <= 1000))
+		vpAssume(vpAnd(p0 >= 0, p0 <= 1<<62))
 		st.write("env:other", "create", vpRecMk("other", "tok-other", p0), false, 0)
 	case 1:
 		st.write("env:outsider", "create", vpRec("r0"), false, 0)
@@ -36,7 +36,7 @@ func vpH_C10_T_safety() {
 		go func() {
 			vpYield("env.third") // schedulable at every store-operation leg of the candidate
 			p3 := vpInt("prio3")
-			vpAssume(vpAnd(p3 >= 0, p3 <= 1000))
+			vpAssume(vpAnd(p3 >= 0, p3 <= 1<<62))
 			st.write("env:third", "update", vpRecMk("third", "tok-third", p3), false, st.lastSeq)
 			vpEvent("third-wrote")
 		}()
